@@ -42,9 +42,24 @@ else:
     sh(f"git apply {patch}")
 files = [l[6:].strip() for l in open(patch) if l.startswith("+++ b/")]
 pkgs = sorted({"./" + os.path.dirname(f) for f in files if f.endswith(".go")})
+STUB = "go1.26.8 test -modfile=/tmp/stubmod/go.mod -vet=off -count=1 -ldflags=-checklinkname=0 "
+def stubmod():
+    os.makedirs("/tmp/stubmod", exist_ok=True)
+    gm = open("/repo/go.mod").read() + "\nreplace github.com/lucas-clemente/quic-go => /verif/stubs/quic-go\nreplace github.com/megaease/grace => /verif/stubs/grace\n"
+    open("/tmp/stubmod/go.mod", "w").write(gm); shutil.copy("/repo/go.sum", "/tmp/stubmod/go.sum")
 rc, out = sh("go build " + " ".join(pkgs))
+quic = rc != 0 and "quic-go" in out
+if quic:
+    # pre-existing: quic-go v0.27.2 does not compile here; use the compile stub (as the checks do)
+    stubmod()
+    e3 = dict(env, GOTOOLCHAIN="local")
+    rc, out = sh("go1.26.8 build -modfile=/tmp/stubmod/go.mod " + " ".join(pkgs), e=e3)
 res["verified_here"]["build"] = "ok" if rc == 0 else out[-600:]
-rc, out = sh("go test -vet=off -count=1 " + " ".join(pkgs), timeout=1800)
+if quic:
+    rc, out = sh(STUB + " ".join(pkgs), timeout=1800, e=dict(env, GOTOOLCHAIN="local"))
+    res["verified_here"]["existing_tests_cmd"] = STUB + " ".join(pkgs) + "  (quic-go replaced by the compile stub)"
+else:
+    rc, out = sh("go test -vet=off -count=1 " + " ".join(pkgs), timeout=1800)
 res["verified_here"]["existing_tests_with_change"] = "pass" if rc == 0 else "FAIL: " + out[-800:]
 demo_files = [f for f in os.listdir(mdir) if f.endswith(".go")]
 copy_to = meta.get("demo_copy_to", "")
@@ -56,12 +71,19 @@ def copy_demo():
         dst = os.path.join(wt, dst)
         os.makedirs(os.path.dirname(dst), exist_ok=True)
         shutil.copy(os.path.join(mdir, f), dst); copied.append(dst)
-copy_demo()
+self_contained = "cp " in demo_cmd and "OUT/" in demo_cmd
+if not self_contained:
+    copy_demo()
+def failed(rc, out):
+    return rc != 0 or "--- FAIL" in out or re.search(r"^FAIL\b", out, re.M) is not None
 rc, out = sh(demo_cmd, timeout=1800)
-res["verified_here"]["demo_with_change"] = "fails (as required)" if rc != 0 else "PASSES (demo does not show the break)"
+demo_fail_with = failed(rc, out)
+res["verified_here"]["demo_with_change"] = "fails (as required)" if demo_fail_with else "PASSES (demo does not show the break)"
 sh(f"git apply -R {patch}")
 rc2, out2 = sh(demo_cmd, timeout=1800)
-res["verified_here"]["demo_without_change"] = "passes (as required)" if rc2 == 0 else "FAILS: " + out2[-600:]
+demo_fail_without = failed(rc2, out2)
+res["verified_here"]["demo_without_change"] = "passes (as required)" if not demo_fail_without else "FAILS: " + out2[-600:]
+rc, rc2 = (1 if demo_fail_with else 0), (1 if demo_fail_without else 0)
 for f in copied:
     os.remove(f)
 clean()
@@ -85,8 +107,9 @@ clean()
 dst = os.path.join("/verif/seeded", name)
 os.makedirs(dst, exist_ok=True)
 shutil.copy(patch, os.path.join(dst, "patch.diff"))
-for f in demo_files:
-    shutil.copy(os.path.join(mdir, f), os.path.join(dst, f))
+for f in os.listdir(mdir):
+    if f not in ("meta.json", "patch.diff") and os.path.isfile(os.path.join(mdir, f)):
+        shutil.copy(os.path.join(mdir, f), os.path.join(dst, f))
 meta.update(res)
 meta["ran"] = f"tools/seeded.py {pid} {wt} {mdir} {name} (apply, build, existing tests, demo fail/pass, then `VERIF_REPO={wt} bin/vcheck run {pid}` with the change applied)"
 json.dump(meta, open(os.path.join(dst, "meta.json"), "w"), indent=1)
